@@ -9,7 +9,7 @@ clevel = os.path.exists(d + "/patch_c.diff")
 meta = {
     "property": prop, "change": change, "needs_to_manifest": needs, "detected_by": det,
     "origin": "independent sub-agent given only the property text and a scratch worktree (second and third waves: asked for a change "
-              "different from the earlier ones)" if sid[-1] in "bcdefg" else
+              "different from the earlier ones)" if sid[-1] in "bcdefgh" else
               "independent sub-agent given only the property text and a scratch worktree",
     "confirmed": conf,
     "how_confirmed": ("tools/confirm_seeded_c.sh" if clevel else "tools/confirm_seeded.sh") +
